@@ -989,6 +989,12 @@ class OptimiserHistory:
         if self._filename is not None:
             raise RuntimeError("Already initialised, cannot initialise again!")
 
+        if self._len > len(self._memory):
+            raise RuntimeError(
+                "Cannot initialise a trajectory file after coordinates "
+                "have been discarded from memory"
+            )
+
         # filename should not be a path
         assert "\\" not in filename and "/" not in filename
         if not filename.lower().endswith(".zip"):
@@ -1041,10 +1047,7 @@ class OptimiserHistory:
         trj._len = trj._n_stored
         trj._is_closed = True
         # load the last two into memory
-        if trj._len < 2:
-            load_idxs = [trj._len - 1]
-        else:
-            load_idxs = [trj._len - 2, trj._len - 1]
+        load_idxs = list(range(max(trj._len - 2, 0), trj._len))
         with ZipFile(trj._filename, "r") as file:
             for idx in load_idxs:
                 with file.open(f"coords_{idx}") as fh:
@@ -1138,6 +1141,9 @@ class OptimiserHistory:
         """
         if self._filename is None:
             raise RuntimeError("Cannot close - had no trajectory file!")
+
+        if self._is_closed:
+            return None  # Everything in memory is already on disk
 
         idx = self._n_stored
         with ZipFile(self._filename, "a") as file:
